@@ -468,7 +468,7 @@ fn fixed_cases(rep: &mut Report) {
 
 pub fn run(cfg: &Cfg) -> Report {
     let shards = 64;
-    let per = cfg.n(1000, 12000);
+    let per = cfg.n(4000, 40000);
     let mut reports = par_map(shards, |sh| {
         let mut rng = rng_for(cfg.seed, "C06", sh as u64);
         let mut rep = Report::new();
